@@ -55,12 +55,16 @@ func checkC15(c *Ctx) {
 	r.Assumptions = []string{"ParseSepList parses one or more items separated by the given token (closed form checked under C09/PAIR pins)", "slice.Map/strings.Concat preserve order"}
 	r.Rule("C15.bcd", "grammar layering, constructors and printer templates are the documented ones", 15)
 	r.Rule("C15.a", "base-type table: parser name tests composed with the printer", 7)
+	r.Rule("C15.f", "external types enter the enclosing scope only under their package-qualified names (a user type is never replaced by an external type of the same short name)", 5)
+	r.Rule("C15.g", "maximal munch never fuses the '>' closing a type-argument list with the character that may follow it", 7)
 	r.Rule("C15.e", "every syntactic position of a type reaches parseType / parseTypeArrows", 5)
 	f := c.LoadFC("fc")
 	if f == nil {
 		return
 	}
 	c.checkPins(f, "C15.bcd", c15Pins)
+	checkExternalNamesQualified(c, "C15.f", f)
+	checkLexerVsTypeSyntax(c, "C15.g", f)
 	checkC15Atom(c, f)
 }
 
